@@ -237,9 +237,25 @@ func run(r *vt.Run, t vt.TB, s spec) {
 		query = "SELECT * FROM nosuchtable"
 		nativeTable = "nosuchtable"
 	case "column":
-		query = "SELECT nosuchcolumn, " + strings.Join(sel, ", ") + " FROM " + tableSQL
-		expanded = append([]string{"nosuchcolumn"}, expanded...)
-		items = append([]string{"nosuchcolumn"}, items...)
+		unknown := "nosuchcolumn"
+		if s.DB.Tables[0].Def.WithoutRowid && s.K%2 == 0 {
+			// a WITHOUT ROWID table has no rowid: its names are unknown columns
+			// there (unless a column is really called so)
+			alias := []string{"rowid", "OID", "_rowid_", "RowId"}[s.K/2%4]
+			real := false
+			for _, c := range allCols {
+				if fold.Equal(c, alias) {
+					real = true
+				}
+			}
+			if !real {
+				unknown = alias
+				r.Count("bad:column:rowid-name-on-without-rowid-table", 1)
+			}
+		}
+		query = "SELECT " + unknown + ", " + strings.Join(sel, ", ") + " FROM " + tableSQL
+		expanded = append([]string{unknown}, expanded...)
+		items = append([]string{unknown}, items...)
 	case "not-select":
 		query = "CREATE TABLE x (a)"
 	case "syntax":
@@ -301,6 +317,11 @@ func run(r *vt.Run, t vt.TB, s spec) {
 		wantErr = nat.Select(nativeTable, func(row sqlittle.Row) { want = append(want, append([]interface{}{}, row...)) }, expanded...)
 	}
 	nat.Close()
+	if s.Bad == "column" && wantErr == nil {
+		// (the table has no such column, whatever the native API makes of the
+		// name: the query has to fail)
+		wantErr = fmt.Errorf("no such column %q in the table (columns %q)", expanded[0], allCols)
+	}
 	r.Case(s, s.Plan != "all" || s.Bad != "" || len(want) > 0, "plan:"+s.Plan, "bad:"+s.Bad, fmt.Sprintf("star=%v", s.Star >= 0 || len(s.Pick) == 0), fmt.Sprintf("rows<=%d", bucket(len(want))))
 
 	before := producerGoroutines()
